@@ -303,7 +303,8 @@ Inductive op :=
 | OStart (q : nat) (nm : str) (args : list term)
 | ONext (q : nat)
 | OClose (q : nat)                                           (* close() or dropping the generator *)
-| ODrain (q : nat).
+| ODrain (q : nat)
+| OPeek (ts : list term).                                     (* get_value of terms over the user's variables, at any moment *)
 
 (* which facts match: Answer.match for each, bindings undone after each *)
 Fixpoint retract_list (h : store) (fresh : nat -> nat) (args : list term) (fs : list (list term))
@@ -390,6 +391,7 @@ Definition estep (fuel : nat) (n eid : nat) (o : op) (e : engine) (h : store) : 
           (with_atoms (with_cursors e (aset Nat.eqb q c' (cursors e))) (intern_all names (atoms e, natom e)),
            h', otag "all" [OL (map (fun vals => OL (map term_obs vals)) answers); oopt onat err])
       end
+  | OPeek ts => (e, h, otag "peek" (map term_obs (map (den2 h) (map u ts))))
   end.
 
 (* ---------------------------------------------------------------- the world *)
